@@ -39,4 +39,20 @@ if [ $rc -ne 0 ]; then
   rc=$?
 fi
 if [ $rc -ne 0 ]; then echo "BUILD FAILED, see $LOG" >&2; tail -30 "$LOG" >&2; exit 2; fi
+# harnesses (C) linked against the static internal library of that build
+HERE=$(cd "$(dirname "$0")/.." && pwd)
+mkdir -p "$S/harness"
+for h in "$HERE"/harness/c/*.c; do
+  b=$(basename "$h" .c)
+  if [ ! -x "$S/harness/$b" ] || [ "$h" -nt "$S/harness/$b" ] || [ "$S/build/lib/libdbus-internal.a" -nt "$S/harness/$b" ] || [ "$S/build/lib/libdbus-daemon-internal.a" -nt "$S/harness/$b" ]; then
+    LIBS="$S/build/lib/libdbus-internal.a -L$S/build/lib -ldbus-1 -Wl,-rpath,$S/build/lib"
+    case "$b" in bus*) LIBS="$S/build/lib/libdbus-daemon-internal.a $S/build/lib/libdbus-testutils.a $S/build/lib/libdbus-internal.a -L$S/build/lib -ldbus-1 -Wl,-rpath,$S/build/lib -lexpat";; esac
+    gcc -fsanitize=address,undefined -fno-sanitize-recover=undefined -fno-omit-frame-pointer -O1 -g -Wno-deprecated-declarations \
+      -DDBUS_COMPILATION -DHAVE_CONFIG_H -I"$S/build" -I"$S/src" -I"$S/src/bus" \
+      -o "$S/harness/$b" "$h" $LIBS -lpthread -lsystemd >>"$LOG" 2>&1 || \
+    gcc -fsanitize=address,undefined -fno-sanitize-recover=undefined -fno-omit-frame-pointer -O1 -g -Wno-deprecated-declarations \
+      -DDBUS_COMPILATION -DHAVE_CONFIG_H -I"$S/build" -I"$S/src" -I"$S/src/bus" \
+      -o "$S/harness/$b" "$h" $LIBS -lpthread >>"$LOG" 2>&1 || { echo "HARNESS BUILD FAILED ($b), see $LOG" >&2; tail -30 "$LOG" >&2; exit 2; }
+  fi
+done
 echo "$S/build"
